@@ -5,7 +5,7 @@ package main
 // Config structs whose fields are not only scalars.  <default> describes the constructor's config
 // struct AND the value its registered default-config function returns: comma separated
 // name=value, value = 5 (int field) | {k=1;k2=2} (map[string]int) | [1;2] ([]int) | (x=1;y=2)
-// (nested struct of ints).  The struct type is made with reflect.StructOf, constructor and default
+// (nested struct of ints) | &(x=1;y=2) (pointer to one).  The struct type is made with reflect.StructOf, constructor and default
 // function with reflect.MakeFunc; the n-th invocation of the default function returns the tree
 // with 1000*n added to every number (fresh maps / slices every time).  <section> (same syntax, ~ =
 // nil value, - = no key) holds the user's settings; the component is registered through
@@ -69,6 +69,14 @@ func parseVal(s string) (otree, bool) {
 	}
 	if s == "" {
 		return otree{}, false
+	}
+	if s[0] == '&' {
+		t, ok := parseVal(s[1:])
+		if !ok || t.kind != 's' {
+			return otree{}, false
+		}
+		t.kind = 'p'
+		return t, true
 	}
 	switch s[0] {
 	case '{', '(':
@@ -168,10 +176,13 @@ func typeOfTree(t otree) reflect.Type {
 		return mapT
 	case 'l':
 		return sliceT
-	case 's':
+	case 's', 'p':
 		ts := make([]reflect.Type, len(t.keys))
 		for i := range ts {
 			ts[i] = intT
+		}
+		if t.kind == 'p' {
+			return reflect.PtrTo(structOf(t.keys, ts))
 		}
 		return structOf(t.keys, ts)
 	}
@@ -200,6 +211,12 @@ func valueOfTree(t otree, typ reflect.Type, bump int) reflect.Value {
 		for i := range t.keys {
 			v.Field(i).SetInt(int64(t.vals[i].num + bump))
 		}
+	case 'p':
+		e := reflect.New(typ.Elem())
+		for i := range t.keys {
+			e.Elem().Field(i).SetInt(int64(t.vals[i].num + bump))
+		}
+		v.Set(e)
 	}
 	return v
 }
@@ -236,9 +253,9 @@ func canonVal(v reflect.Value) string {
 		return "(" + strings.Join(ps, ";") + ")"
 	case reflect.Ptr:
 		if v.IsNil() {
-			return "nil"
+			return "&nil"
 		}
-		return canonVal(v.Elem())
+		return "&" + canonVal(v.Elem())
 	}
 	return "?" + v.Kind().String()
 }
@@ -515,6 +532,9 @@ func treeText(t otree) string {
 	if t.kind == 'm' {
 		return "{" + strings.Join(ps, ";") + "}"
 	}
+	if t.kind == 'p' {
+		return "&(" + strings.Join(ps, ";") + ")"
+	}
 	return "(" + strings.Join(ps, ";") + ")"
 }
 
@@ -541,8 +561,11 @@ func genDefault(r *vh.Rand) ([]string, []otree) {
 	var vals []otree
 	for i := range names {
 		kd := kinds[i%3]
+		if kd == 's' && r.Chance(1, 3) {
+			kd = 'p' // the nested struct behind a pointer
+		}
 		if i >= 3 {
-			kd = "nmls"[r.Intn(4)]
+			kd = "nmlspp"[r.Intn(6)]
 		}
 		switch kd {
 		case 'n':
@@ -564,8 +587,8 @@ func genDefault(r *vh.Rand) ([]string, []otree) {
 				t.vals = append(t.vals, num(r))
 			}
 			vals = append(vals, t)
-		case 's':
-			t := otree{kind: 's'}
+		case 's', 'p':
+			t := otree{kind: kd}
 			for _, k := range pickDistinct(r, ovlSubNames, 2+r.Intn(2)) {
 				t.keys = append(t.keys, k)
 				t.vals = append(t.vals, num(r))
@@ -648,7 +671,7 @@ func genOvl(r *vh.Rand, tier string) []string {
 							add := func(n string, t otree) { sn = append(sn, n); sv = append(sv, t) }
 							first := func(kind byte) int {
 								for i, d := range dvals {
-									if d.kind == kind {
+									if d.kind == kind || (kind == 's' && d.kind == 'p') {
 										return i
 									}
 								}
